@@ -34,7 +34,7 @@ SPEC = dict(
           "event + distinct (failed step kind, position) pairs"),
     assumptions=["R7 (function expected() below) encodes the statement's pipeline; read-only VCS queries are ignored",
                  "hg is only observed up to the argv/log-file boundary (no hg binary here)"],
-    required=["runs", "runs_with_mutating_trace", "fault_runs", "hook_env_checked", "contradictions_rejected",
+    required=["runs", "dirty_pattern_file_with_allow_dirty", "runs_with_mutating_trace", "fault_runs", "hook_env_checked", "contradictions_rejected",
               "dry_runs", "no_fetch_runs", "vcs:git", "vcs:hg", "failed_step:commit", "failed_step:tag",
               "failed_step:pre-hook", "order_by_checksum_checked"],
     anchors=[("cli", "_parse_vcs_options"), ("cli", "_update"), ("vcs", "commit"), ("hooks", "run"),
@@ -112,7 +112,7 @@ def expected(f, n_files):
         return {"rejected": None, "seq": [], "exit_ok": True, "rewritten": False}
     if not eff["commit"]:
         return {"rejected": None, "seq": [], "exit_ok": True, "rewritten": True}
-    if f["dirty"] and not f["allow_dirty"]:
+    if f["dirty"] and (not f["allow_dirty"] or extras(f)["dirty_file"] != "other.txt"):
         return {"rejected": None, "seq": [], "exit_ok": False, "rewritten": False}
     seq = []
     if f["pre"]:
@@ -140,7 +140,10 @@ def extras(f):
     hooks given on the command line instead of the config; a VCS tag newer than the config version"""
     idx = encode(f)
     return {"hooks_via_cli": (idx // 7) % 2 == 1, "newer_tag": (idx // 11) % 3 == 0,
-            "how": ("patch", "set-version", "branch-scope")[(idx // 13) % 3]}
+            "how": ("patch", "set-version", "branch-scope")[(idx // 13) % 3],
+            # which file the dirty state concerns: an unrelated one, or one that carries a version pattern
+            # (then even --allow-dirty must not let the run proceed)
+            "dirty_file": ("other.txt", "src/b.py", "other.txt", "a.txt")[(idx // 5) % 4]}
 
 
 def versions(f):
@@ -212,14 +215,14 @@ def setup_fake(d, f, vcs):
     if fails:
         fake.fail_match(fails)
     if vcs == "git":
-        fake.set_out("status", " M other.txt\n" if f["dirty"] else "")
+        fake.set_out("status", f" M {extras(f)['dirty_file']}\n" if f["dirty"] else "")
         fake.set_out("branch", "* main 0123abc [origin/main] msg\n" if f["remote"] else "* main 0123abc msg\n")
         if f["remote"]:
             fake.set_out("remote", "git@example.org:x/y.git\n")
         fake.set_out("tag-list", "0.9.0\n1.0.0\nnot-a-version\n" + ("1.2.5\n" if extras(f)["newer_tag"] else ""))
         fake.set_out("tag-merged", "0.9.0\n1.0.0\n" + ("1.2.5\n" if extras(f)["newer_tag"] else ""))
     else:
-        fake.set_out("status", "M other.txt\n" if f["dirty"] else "")
+        fake.set_out("status", f"M {extras(f)['dirty_file']}\n" if f["dirty"] else "")
         if f["remote"]:
             fake.set_out("remote", "default = https://example.org/repo\n")
         else:
@@ -291,8 +294,10 @@ def check_trace(ctx, f, evs, res, exp, init_sums, final_sums, n_files, tag, faul
             problems.append(("exit_0_after_failed_step", f"{kinds[failed[0]]} failed, exit code 0"))
         if ("tag" in kinds or "push" in kinds) and not any(k == "commit" and e["exit"] == 0 for k, e in seq):
             problems.append(("tag_or_push_without_commit", f"{kinds}"))
-        if f["dirty"] and not f["allow_dirty"] and eff["commit"] and kinds:
-            problems.append(("mutation_despite_dirty_tree", f"{kinds}"))
+        if f["dirty"] and (not f["allow_dirty"] or extras(f)["dirty_file"] != "other.txt") and eff["commit"] and kinds:
+            problems.append(("mutation_despite_dirty_tree", f"{kinds} (dirty file: {extras(f)['dirty_file']})"))
+        if f["dirty"] and f["allow_dirty"] and extras(f)["dirty_file"] != "other.txt" and eff["commit"]:
+            ctx.count("dirty_pattern_file_with_allow_dirty")
     # (d) hook environment
     for k, e in seq:
         if k in ("pre-hook", "post-hook"):
